@@ -814,7 +814,6 @@ func (l *lineage) crowdedScenario() {
 	l.stats["crowded-scenarios"]++
 }
 
-
 // oneGenomeTwinScenario: within ONE registry lifetime one lineage of copies acquires a forward link u->v, the recurrent
 // link v->u, loses u->v to a toggle and then acquires v->u again as a FORWARD link: the genome holds both flags of v->u,
 // which are different innovations (C01: ascending numbers, no duplicate link; C03: one meaning per number).
